@@ -43,12 +43,18 @@ WARMUP = ["utt 3000 16000 40,3,-1", "p i 7000 0", "p f 9000 1", "end", "res"]
 # warm-up of the "streaming after a batch utterance" groups: a full_utt decode of the whole recording leaves the
 # cepstrum ring (n_mfc_alloc) as large as that utterance for good
 WARMUP_FULL = ["utt 0 99999999 40,3,-1", "p i 99999999 0 full", "end", "res"]
-MODE = {"warm_full": False, "ref_full": False}
+MODE = {"warm_full": False, "ref_full": False, "warm_len": False}
 
 
 def warmup_run():
     wl = WARMUP_FULL if MODE["warm_full"] else WARMUP
     w = wl[0].split()
+    if MODE.get("warm_len"):
+        # a STREAMED warm-up utterance of the given number of samples: it leaves the live feature ring (feat.c cepbuf,
+        # LIVEBUFBLOCKSIZE slots; the positions are never reset) at read position (frames + win) mod LIVEBUFBLOCKSIZE,
+        # where the next utterance starts to write
+        n = int(MODE["warm_len"])
+        return mk_run(0, n, w[3], [f"p i {n // 2} 0", f"p f {n - n // 2} 1"])
     if MODE["warm_full"] and MODE["warm_full"] is not True:
         # a batch utterance of the given number of samples (the cepstrum ring then has exactly that many frames)
         n = int(MODE["warm_full"])
@@ -341,7 +347,7 @@ def model_lines(P, run, fix=1):
             fe = d.get("fe", "-")
             resp = "-" if fe == "-" else ",".join(f"{x.split(':')[1]}:{1 if int(x.split(':')[2]) > 0 else 0}" for x in fe.split(","))
             lines.append(f"p {w[3]} {resp}")
-        elif w[1] == "align":
+        elif w[1] in ("align", "ralign"):
             na = sum(1 for e in parse_sc(d.get("sc", "-")) if e[0] == "a")
             lines.append(f"align {1 if na else 0} {na}")
         else:
@@ -476,6 +482,29 @@ def branch_stats(P, run, stats):
                 b["no_search call"] += 1
             if int(st["nfeat"]) > P["nmfc"]:
                 b["more than 128 frames buffered"] += 1
+        if op == "end" and not any(o.startswith("p ") and o.endswith(" full") for o in run["ops"]):
+            # where in the live feature ring (feat.c cepbuf) the end-of-utterance padding was written: bufpos at the
+            # moment of the flush = bufpos afterwards - win (mod LIVEBUFBLOCKSIZE)
+            try:
+                stats.setdefault("flush_pos", {}).setdefault((int(st["bp"]) - P["win"]) % P["livebuf"], 0)
+                stats["flush_pos"][(int(st["bp"]) - P["win"]) % P["livebuf"]] += 1
+            except (KeyError, ValueError):
+                pass
+        if op.startswith("q "):
+            # every query by kind, by the number of frames searched when it was made (early points of the utterance
+            # apart), and whether it was answered or refused (NULL)
+            ofr = int(st.get("of", "0"))
+            body = o.split(" | ")[0]
+            if op.split()[1] in ("align", "ralign"):
+                ans = "skipped by the harness (no dictionary word in the hypothesis)" if "al=skip" in body else \
+                      "refused (NULL)" if "al=-1" in body else "answered"
+            elif op.split()[1] == "hyp":
+                ans = "refused (NULL)" if "hyp=~" in body else "answered"
+            else:
+                ans = "refused (NULL)" if "segs=-" in body else "answered"
+            stats.setdefault("queries_by_point", {}).setdefault(
+                f"{op.split()[1]} after {ofr if ofr <= 5 else '6+'} frames searched, {int(st['nfeat']) and 'some' or 'no'} frames buffered: {ans}", 0)
+            stats["queries_by_point"][f"{op.split()[1]} after {ofr if ofr <= 5 else '6+'} frames searched, {int(st['nfeat']) and 'some' or 'no'} frames buffered: {ans}"] += 1
         if op == "end":
             if prev["st"] == "1" and fes and fes[-1][1] == 1:
                 b["end of utterance while STARTED with a pending frame"] += 1
@@ -485,7 +514,7 @@ def branch_stats(P, run, stats):
                 b["end of utterance while PROCESSING"] += 1
             if int(prev["nfeat"]) > 0:
                 b["frames still buffered at end (searched by decoder_end_utt)"] += 1
-        if op.startswith("q align") and any(e[0] == "a" for e in parse_sc(d.get("sc", "-"))):
+        if op.startswith(("q align", "q ralign")) and any(e[0] == "a" for e in parse_sc(d.get("sc", "-"))):
             b["partial alignment (rewind + re-advance)"] += 1
             if int(st["nfeat"]) > 0:
                 b["partial alignment with unsearched frames buffered"] += 1
@@ -728,12 +757,13 @@ def report_violation(c, binp, g, off, ln, cmn, ops, cap, why):
               "reference_ops": ref_ops(ln, cap), "variant_ops": small, "why": why,
               "reference_decoded_after_the_variant": REF_LAST, "reference_buffered_no_search": REF_NOSEARCH,
               "warm_up_is_a_full_utt_decode": MODE["warm_full"], "reference_full_utt": MODE["ref_full"],
+              "warm_up_streamed_samples": MODE.get("warm_len") or False,
               "implementation_violates_property": visible, "finding_class": key,
               "how_to_rerun": "python3 tools/check.py C07 --replay <this file>   (a warm-up utterance, the reference "
                               "pattern and the variant are decoded by harness/h_c07 in one fresh process; ops: "
-                              "'p <i|f> <samples> <no_search>', 'q hyp|seg|align')"}
+                              "'p <i|f> <samples> <no_search>', 'q hyp|seg|align|ralign')"}
     replay.update(info)
-    sig = (g["name"], off, ln, tuple(small), kind, REF_LAST, REF_NOSEARCH, MODE["warm_full"], MODE["ref_full"])
+    sig = (g["name"], off, ln, tuple(small), kind, REF_LAST, REF_NOSEARCH, MODE["warm_full"], MODE["ref_full"], MODE.get("warm_len"))
     if sig not in STATE.setdefault("reported", set()):
         STATE["reported"].add(sig)
         c.violation(replay, visible, finding_key=key)
@@ -785,24 +815,24 @@ def probe(binp):
 
 
 def check_group(c, binp, g, cases, cap, stats, label, depth=0, ref_last=False, ref_nosearch=False, warm_full=False,
-                ref_full=False):
+                ref_full=False, warm_len=False):
     import time as _t
     t0 = _t.time()
     try:
-        return _check_group(c, binp, g, cases, cap, stats, label, depth, ref_last, ref_nosearch, warm_full, ref_full)
+        return _check_group(c, binp, g, cases, cap, stats, label, depth, ref_last, ref_nosearch, warm_full, ref_full, warm_len)
     finally:
         stats["seconds"][label.split(" M=")[0][:40]] += round(_t.time() - t0, 1)
 
 
 def _check_group(c, binp, g, cases, cap, stats, label, depth=0, ref_last=False, ref_nosearch=False, warm_full=False,
-                 ref_full=False):
+                 ref_full=False, warm_len=False):
     """cases: list of (off, len, cmn, [(kind, ops), ...], cap).  Returns (ok, P).
     ref_last: decode the variants before the reference pattern (on a fresh decoder the variants then meet the
     initial buffer sizes, which the single-call reference would have grown)."""
     global REF_LAST, REF_NOSEARCH
     REF_LAST = ref_last
     REF_NOSEARCH = ref_nosearch
-    MODE["warm_full"], MODE["ref_full"] = warm_full, ref_full
+    MODE["warm_full"], MODE["ref_full"], MODE["warm_len"] = warm_full, ref_full, warm_len
     runs = [warmup_run()]
     index = []               # (case idx, variant idx or -1 for the reference) per run after the warm-up
     for ci, (off, ln, cmn, variants, cap_c) in enumerate(cases):
@@ -849,7 +879,7 @@ def _check_group(c, binp, g, cases, cap, stats, label, depth=0, ref_last=False, 
                         continue
                 rest.append((o2, l2, m2, v2, cp2))
             if rest:
-                ok2, P = check_group(c, binp, g, rest, cap, stats, label, depth + 1, ref_last, ref_nosearch, warm_full, ref_full)
+                ok2, P = check_group(c, binp, g, rest, cap, stats, label, depth + 1, ref_last, ref_nosearch, warm_full, ref_full, warm_len)
                 return (ok2 and known), P
         return known, P
     # ---- oracle: every record identical to the reference record of its clip
@@ -925,6 +955,182 @@ def _check_group(c, binp, g, cases, cap, stats, label, depth=0, ref_last=False, 
     return ok and tie_ok, P
 
 
+# --------------------------------------------------------------------------------------------------
+# round 3 (wave 5): ring-residue sweep and early / refused queries
+
+
+def frames_to_samples(rng, P, M):
+    """a clip length that gives exactly M cepstral frames (M - 1 from fe_process, one from fe_end), M >= 2"""
+    return P["fsize"] + (M - 2) * P["fshift"] + rng.below(P["fshift"])
+
+
+def ring_phase_targets(rng, P, tier):
+    """(r, M): r = write position of the live feature ring (feat.c cepbuf, LIVEBUFBLOCKSIZE slots, bufpos survives from
+    utterance to utterance) at the moment the end-of-utterance padding is written; M = cepstral frames of the clip, drawn
+    next to every other ring / block size on the path (n_mfc_alloc, n_feat_alloc = 128 * 2^k) or short"""
+    Lb, win = P["livebuf"], P["win"]
+    crit = [0, 1, 2, win, win + 1, Lb - 1, Lb - 2, Lb - win, Lb - win - 1]          # wrap of the padding / of tpos / of the window
+    if tier == "quick":
+        rest = crit[2:5] + crit[6:]
+        rng.shuffle(rest)
+        rs = crit[:2] + [Lb - 1] + rest[:2] + [rng.below(Lb)]
+    else:
+        rs = list(range(Lb))
+    out = []
+    sizes = sorted(set([P["nmfc"], P["nfeat"]]))
+    for r in rs:
+        k = rng.below(100)
+        if k < (70 if tier == "quick" else 55):
+            M = rng.range(12, 60)                                  # short: the sweep is about r
+        elif k < 85:
+            M = rng.choice(sizes) + rng.range(-3, 6)               # frame count next to a ring size as well
+        else:
+            M = rng.range(60, 250)
+        out.append((r, M))
+    return out
+
+
+def ring_phase_family(c, binp, groups, cap, stats, distinct):
+    """Utterance ends at EVERY residue of the live feature ring.  Each case is a process of its own: a streamed warm-up
+    utterance of Mw frames leaves curpos at (Mw + win) mod L (the next utterance starts writing there: feat.c
+    `bufpos = curpos` at beginutt), the chunked variant of M frames then writes its end padding at bufpos
+    r = (Mw + win + win + M) mod L, the one-call reference of the same clip follows at another residue (r + M + win)
+    -- so a defect of the index arithmetic at ONE residue (padding source, window wrap) shows as
+    a differing record, and `isolated` reruns exactly the same three utterances.  Returns (ok, number of variants)."""
+    allok, nvar = True, 0
+    hit = stats.setdefault("ring_phase_cases (r = bufpos at the end flush of the variant; frames)", [])
+    for g in groups:
+        rc, err, P, _ = run_harness(binp, g, [])
+        if not P:
+            break
+        Lb, win, N = P["livebuf"], P["win"], P["naudio"]
+        maxM = min(299, (N - P["fsize"]) // P["fshift"] + 1)
+        for (r, M) in ring_phase_targets(c.rng, P, c.tier):
+            if STATE["oracle_failed"]:
+                return allok, nvar
+            M = max(2, min(M, maxM))
+            Mw = (r - 2 * win - M) % Lb
+            if Mw < 2:
+                Mw += Lb
+            if Mw > maxM:
+                continue
+            ln, lw = frames_to_samples(c.rng, P, M), frames_to_samples(c.rng, P, Mw)
+            # inside the spoken part of the recording where the length allows: a hypothesis exists, so a wrong padding
+            # shows in the visible record (scores of the last segment), not only in the feature vectors
+            off = min(c.rng.range(N // 8, N // 2), max(0, N - ln))
+            kind = c.rng.choice(["random", "mixed", "queries", "tinyfirst", "buffered", "chunks"])
+            if kind == "chunks":
+                csz = c.rng.choice([1024, 2048, 160, 4000])
+                ops = [f"p {'f' if c.rng.chance(0.5) else 'i'} {min(csz, ln - i)} 0" for i in range(0, ln, csz)]
+            else:
+                ops = gen_pattern(c.rng, ln, P, cap, kind)
+            note_pattern(stats, P, "ringphase", ops, ln)
+            distinct.add(hash((g["name"], off, ln, lw, tuple(ops), "ringphase")))
+            nvar += 1
+            hit.append(f"r={r} M={M} warm-up={Mw}")
+            ok, P = check_group(c, binp, g, [(off, ln, c.rng.choice(CMNS), [("ringphase " + kind, ops)], cap)], cap, stats,
+                                f"ring-residue sweep {g['name']}", ref_last=True, warm_len=lw)
+            allok = allok and ok
+    return allok, nvar
+
+
+def early_query_ops(rng, L, P, cap, k, qkind, nosearch):
+    """a first piece after which exactly k frames have been searched (k + win cepstral frames delivered; with
+    nosearch the same piece is only buffered), the query, a second small piece and the same query again, then the rest"""
+    fs, sh, win = P["fsize"], P["fshift"], P["win"]
+    T = k + win
+    n1 = rng.range(1, fs - 1) if k == 0 and rng.chance(0.5) else fs + (T - 1) * sh + rng.below(sh)
+    e = lambda: "f" if rng.chance(0.3) else "i"
+    ops, left = [], L
+    for n in (n1, rng.choice([sh, 2 * sh, rng.range(1, 3 * sh)])):
+        n = min(n, left, cap)
+        ops += [f"p {e()} {n} {nosearch}", f"q {qkind}"]
+        left -= n
+    while left > 0:
+        n = min(left, cap, rng.choice([left, rng.range(200, 6000)]))
+        ops.append(f"p {e()} {n} 0")
+        left -= n
+    return ops
+
+
+def early_query_family(c, binp, groups, cap, stats, distinct):
+    """Queries of every kind (hypothesis, segmentation, alignment, alignment REFUSED for want of a hypothesis) at every
+    early point of the utterance: after 0, 1, 2, ... frames searched, searched or only buffered.  A refused query is a
+    query: the final record and the frame count must not change."""
+    allok, nvar = True, 0
+    ks = [0, 1, 2, 3, 4, 5] if c.tier == "quick" else [0, 1, 2, 3, 4, 5, 6, 8, 12]
+    for g in groups:
+        if STATE["oracle_failed"]:
+            break
+        rc, err, P, _ = run_harness(binp, g, [])
+        if not P:
+            break
+        N = P["naudio"]
+        cases = []
+        for ci in range(2 if c.tier == "quick" else 6):
+            ln = frames_to_samples(c.rng, P, c.rng.range(14, 40) if ci else c.rng.range(60, 120))
+            off = c.rng.below(max(1, N - ln))
+            variants = []
+            for k in ks:
+                for qkind in (["ralign", c.rng.choice(["hyp", "seg", "align"])] if c.tier == "quick" else ["ralign", "hyp", "seg", "align"]):
+                    ns = 1 if (c.rng.chance(0.15) and k > 0) else 0
+                    ops = early_query_ops(c.rng, ln, P, cap, k, qkind, ns)
+                    variants.append(("earlyquery", ops))
+                    note_pattern(stats, P, "earlyquery", ops, ln)
+                    distinct.add(hash((g["name"], off, ln, tuple(ops), "earlyquery")))
+                    nvar += 1
+            cases.append((off, ln, c.rng.choice(CMNS), variants, cap))
+        ok, P = check_group(c, binp, g, cases, cap, stats, f"early and refused queries {g['name']}")
+        allok = allok and ok
+    return allok, nvar
+
+
+RING_SHAPES = [  # (frames pending in the ring, frames passed in, beginutt, endutt)
+    (3, 0, 0, 1), (3, 1, 0, 1), (3, 2, 0, 1), (0, 1, 0, 1), (5, 1, 0, 1),      # end of utterance: padding from the last slot
+    (3, 1, 0, 0), (3, 4, 0, 0), (3, 0, 0, 0), (9, 17, 0, 0),                    # middle of an utterance: copy + windows
+    (3, 1, 1, 0), (3, 5, 1, 0), (0, 0, 1, 0), (3, 0, 1, 1), (7, 3, 1, 1),      # start (input pointer reset, first frame replicated), block path
+    (3, 246, 0, 1), (3, 247, 0, 1), (3, 248, 0, 1), (3, 250, 0, 0), (3, 251, 0, 0)]   # live-buffer clamp boundary (D67)
+
+
+def ring_unit_tie(c, stats):
+    """The index arithmetic of feat_s2mfc2feat_live at EVERY position of the live feature ring, exhaustively and on every
+    run: harness/h_c07r.c calls the real function on a feat_t whose ring slots and input frames carry identifying
+    markers, with curpos at each of the LIVEBUFBLOCKSIZE positions, for a list of call shapes (pending frames, frames
+    passed in, beginutt, endutt); `ssdriver c07` runs the model function `featLive` (the one the C07 theorems and
+    Props/C07Ring.lean are about) on the same state; which id every changed slot holds afterwards, bufpos, curpos,
+    *inout_ncep, the number of feature vectors and three coefficients of each (functions of all 2 win + 1 window
+    entries) must be equal.  This is the tie of the ring-position theorems: no residue is left to sampling."""
+    binr = vlib.build_harness("h_c07r")
+    rc, out, err = vlib.run_bin(binr, stdin_text="", timeout=120)
+    hdr = kv(out.split("\n")[0]) if out.startswith("ring ok") else {}
+    if not hdr:
+        c.oblige("ring harness initialises", False, (out + err)[-600:])
+        return False
+    Lb, win = int(hdr["livebuf"]), int(hdr["win"])
+    shapes = list(RING_SHAPES)
+    for _ in range(6 if c.tier == "quick" else 60):
+        b, e = c.rng.below(2), c.rng.below(2)
+        shapes.append((c.rng.below(12) if not b else c.rng.below(Lb), c.rng.range(0 if not (b and e) else 1, 40), b, e))
+    ops = [f"ring {cp} {nb} {n} {b} {e}" for (nb, n, b, e) in shapes for cp in range(Lb)]
+    rc, out, err = vlib.run_bin(binr, stdin_text="\n".join(ops) + "\n", timeout=600)
+    cl = out.rstrip("\n").split("\n")[1:]
+    rc2, mout, merr = vlib.run_driver("c07", f"init {win} 0 1\n" + "\n".join(ops) + "\n", timeout=600)
+    ml = mout.rstrip("\n").split("\n")[1:]
+    bad = []
+    if rc != 0 or rc2 != 0 or len(cl) != len(ops) or len(ml) != len(ops):
+        bad.append({"harness_exit": rc, "driver_exit": rc2, "lines": [len(ops), len(cl), len(ml)], "stderr": (err + merr)[-800:]})
+    for op, a, b in zip(ops, cl, ml):
+        if a != b and len(bad) < 3:
+            bad.append({"op (ring <curpos> <pending> <ncep> <beginutt> <endutt>)": op, "C": a[:400], "model": b[:400]})
+    pads = sum(1 for (nb, n, b, e) in shapes if e and not (b and n > 0) and nb + n + 2 * win <= Lb - win)
+    stats["ring_unit"] = {"ring_positions": Lb, "call_shapes": len(shapes), "calls_compared": len(ops),
+                          "of_which_end_of_utterance_paddings (every write position 0..L-1 each)": pads * Lb}
+    c.oblige("correspondence (live feature ring, every position): feat_s2mfc2feat_live on the real code = model featLive for "
+             "curpos = 0 .. LIVEBUFBLOCKSIZE-1 x every call shape: slot contents, bufpos, curpos, frames consumed, features",
+             not bad, bad or stats["ring_unit"])
+    return not bad
+
+
 def load_corpus():
     out = []
     for f in sorted((vlib.ROOT / "corpus" / "C07").glob("*.json")):
@@ -970,6 +1176,7 @@ def check(c):
     stats["d9_stale_assert_present"] = d9
     STATE["tie_failures"], STATE["oracle_failed"], STATE["reported"] = 0, False, set()
     allok = True
+    allok = ring_unit_tie(c, stats) and allok
     # ---- corpus first
     ncorp = 0
     batches = {}                 # corpus cases that share model, grammar and judging mode run in one process
@@ -977,8 +1184,9 @@ def check(c):
         if obj.get("needs_calls_longer_than_32767") and d9:
             continue
         key = (obj["group"], bool(obj.get("reference_decoded_after_the_variant")), bool(obj.get("reference_buffered_no_search")),
-               obj.get("warm_up_is_a_full_utt_decode") or False, bool(obj.get("reference_full_utt")))
-        if key[1] or key[3]:
+               obj.get("warm_up_is_a_full_utt_decode") or False, bool(obj.get("reference_full_utt")),
+               obj.get("warm_up_streamed_samples") or False)
+        if key[1] or key[3] or key[5]:
             key = key + (name,)  # order- / warm-up-sensitive cases keep a process of their own
         batches.setdefault(key, []).append((name, obj))
     for key, items in batches.items():
@@ -987,15 +1195,22 @@ def check(c):
                   min(cap, o.get("cap", 10 ** 9))) for n, o in items]
         ncorp += len(items)
         ok, P = check_group(c, binp, g, cases, cap, stats, "corpus " + ", ".join(n[:28] for n, _ in items)[:60],
-                            ref_last=key[1], ref_nosearch=key[2], warm_full=key[3], ref_full=key[4])
+                            ref_last=key[1], ref_nosearch=key[2], warm_full=key[3], ref_full=key[4], warm_len=key[5])
         allok = allok and ok
+    # ---- round 3: queries at every early point (refused ones included); utterance ends at every residue of the live ring
+    nvar0 = 0
+    distinct0 = set()
+    ok, n = early_query_family(c, binp, GROUPS[:1] + GROUPS[4:5] if c.tier == "quick" else GROUPS, cap, stats, distinct0)
+    allok, nvar0 = allok and ok, nvar0 + n
+    ok, n = ring_phase_family(c, binp, GROUPS[:1] if c.tier == "quick" else GROUPS[:2], cap, stats, distinct0)
+    allok, nvar0 = allok and ok, nvar0 + n
     # ---- generated cases
     npat = 6 if c.tier == "quick" else 40
     rounds = 1 if c.tier == "quick" else 4
     groups = GROUPS[:2] if c.tier == "quick" else GROUPS
     P0 = {"fsize": 410, "fshift": 160, "nmfc": 128}
-    nvar = 0
-    distinct = set()
+    nvar = nvar0
+    distinct = distinct0
     # ---- end-of-utterance flush against the end of feat_buf: critical utterance lengths, immediate search in several
     #      chunk sizes, each on a fresh decoder (feat_buf has its initial size, grown only by doubling), compared with the
     #      buffered (no_search) single call; the same lengths are also in the clip list of the reused decoders above
@@ -1192,6 +1407,12 @@ def check(c):
                   "one_sample_chunks": stats["one_sample_chunks"], "chunks_larger_than_the_cepstrum_ring": stats["chunks_gt_ring"],
                   "model_branches_hit": dict(stats["branches"]), "model_branches_never_hit": unhit,
                   "per_group_utterances": dict(stats["groups"]), "corpus_cases": ncorp,
+                  "live_feature_ring_write_position_at_the_end_of_utterance_flush (streaming utterances; position: count)":
+                      {str(k): v for k, v in sorted(stats.get("flush_pos", {}).items())},
+                  "distinct_ring_positions_at_the_end_flush": len(stats.get("flush_pos", {})),
+                  "live_ring_unit_tie (h_c07r vs featLive)": stats.get("ring_unit", {}),
+                  "ring_residue_sweep_cases": stats.get("ring_phase_cases (r = bufpos at the end flush of the variant; frames)", [])[:48],
+                  "queries_by_kind_point_and_outcome": dict(sorted(stats.get("queries_by_point", {}).items())),
                   "wall_seconds_by_stage": {k: round(v, 1) for k, v in stats["seconds"].items()},
                   "end_of_utterance_edge_clips_on_fresh_decoders (feat_buf size + offset of the frame count)": dict(stats["end_edge_frames"]),
                   "reference_records_with_a_hypothesis": stats["reference_with_hypothesis"],
@@ -1221,6 +1442,7 @@ def replay(c, path):
     cases = [(obj["clip_offset_samples"], obj["clip_length_samples"], obj["cmn"], [("replay", obj["variant_ops"])], cap)]
     ok, P = check_group(c, binp, g, cases, cap, stats, "replay", ref_last=bool(obj.get("reference_decoded_after_the_variant")),
                         ref_nosearch=bool(obj.get("reference_buffered_no_search")),
-                        warm_full=obj.get("warm_up_is_a_full_utt_decode") or False, ref_full=bool(obj.get("reference_full_utt")))
+                        warm_full=obj.get("warm_up_is_a_full_utt_decode") or False, ref_full=bool(obj.get("reference_full_utt")),
+                        warm_len=obj.get("warm_up_streamed_samples") or False)
     c.oblige("replayed pattern gives the reference record and agrees with the model", ok)
     c.cov.update({"evaluations": 1, "distinct_nontrivial": 1})
